@@ -157,6 +157,12 @@ class FakeVCS:
         if vcs != self.kind and vcs is not None:
             entry["ok"] = False
             return 1, b"", b"not a repository"
+        if name == "tag" and kind == "effect":
+            # creating a tag that already exists fails, as it does in git and hg
+            rest = [a for i, a in enumerate(argv[2:], 2) if not a.startswith("-") and argv[i - 1] not in ("--message", "-m")]
+            if rest and rest[0] in self.tags_all:
+                entry["ok"] = False
+                return (128 if self.kind == "git" else 255), b"", f"fatal: tag '{rest[0]}' already exists\n".encode()
         if self.fail is not None and self.fail[0] == name and self.fail[1] == n:
             entry["ok"] = False
             if len(self.fail) > 2 and self.fail[2]:
